@@ -134,6 +134,13 @@ func cmdCheck(args []string) int {
 			pkgSet[c.Pkg] = true
 		}
 	}
+	var myTypePaths []*TypePathSpec
+	for _, tp := range ss.TypePaths {
+		if tp.Prop == prop && (*only == "" || strings.Contains("typegraph", *only)) {
+			myTypePaths = append(myTypePaths, tp)
+			pkgSet[tp.Pkg] = true
+		}
+	}
 	ev := &Evidence{PropertyID: prop, Tier: *tier, Seed: seed, Level: "proof"}
 	ev.Coverage.CheckerCmd = "bin/govc check " + prop + " --tier " + *tier
 	var violations []string
@@ -146,7 +153,7 @@ func cmdCheck(args []string) int {
 		}
 		fmt.Printf("VIOLATION property=%s replay=%s%s\n", prop, path, suffix)
 	}
-	if len(mine) == 0 {
+	if len(mine) == 0 && len(myTypePaths) == 0 {
 		fmt.Printf("no contracts tagged %s found under %s\n", prop, repoDir)
 		fail(prop+"/bind/no-contracts", "no contract tagged with this property was found (contract files missing?)", nil, false)
 		ev.finish(t0, len(violations))
@@ -181,6 +188,15 @@ func cmdCheck(args []string) int {
 				continue
 			}
 			all = append(all, o)
+		}
+	}
+	for _, tp0 := range myTypePaths {
+		for _, tp := range eng.ss.TypePaths {
+			if tp.File == tp0.File && tp.Line == tp0.Line {
+				r := eng.checkTypePaths(tp)
+				results = append(results, r)
+				all = append(all, r.Obls...)
+			}
 		}
 	}
 	genT := time.Since(t0)
